@@ -108,6 +108,8 @@ UNARY = {
     "expm": lambda q: q.expm(), "sqrtm": lambda q: q.sqrtm(), "logm": lambda q: q.logm(),
     "cosm": lambda q: q.cosm(), "sinm": lambda q: q.sinm(), "inv": lambda q: q.inv(),
     "unit": lambda q: q.unit(), "unit_inplace": lambda q: q.copy().unit(inplace=True),
+    "unit_max": lambda q: q.unit(norm="max"), "unit_max_inplace": lambda q: q.copy().unit(inplace=True, norm="max"),
+    "unit_fro_inplace": lambda q: q.copy().unit(inplace=True, norm="fro"), "unit_one_inplace": lambda q: q.copy().unit(inplace=True, norm="one"),
     "tidyup": lambda q: q.copy().tidyup(), "proj_col": None, "ptrace": None,
     "spre": None, "spost": None, "to_super": None, "liouvillian": None, "dissipator": None,
     "evo_const": None, "evo_td": None, "permute": None, "transform": None, "contract": None,
